@@ -212,11 +212,55 @@ def _has_bound_var(e):
     return rec(e, 0)
 
 
+def quantified_definitions(ctx, resolver, formulas):
+    """For ghost functions declared quantified=True that occur in the formulas: the definition as a
+    universally quantified axiom with the application as its pattern (closure under the functions that the
+    definitions themselves mention)."""
+    out = []
+    seen = set()
+    work = list(formulas)
+    for _ in range(4):
+        names = set()
+        stack = list(work)
+        visited = set()
+        while stack:
+            e = stack.pop()
+            if e.get_id() in visited:
+                continue
+            visited.add(e.get_id())
+            if z3.is_quantifier(e):
+                stack.append(e.body())
+            elif z3.is_app(e):
+                dn = e.decl().name()
+                if dn.startswith('g!') and dn[2:] in S.GHOSTS and S.GHOSTS[dn[2:]].quantified:
+                    names.add(dn[2:])
+                stack.extend(e.children())
+        new = []
+        for n in sorted(names - seen):
+            seen.add(n)
+            g = S.GHOSTS[n]
+            ptypes = [T.parse_type(g.types[p]) for p in g.params]
+            consts = [z3.Const('%s!qd_%s' % (p, n), pt.sort()) for p, pt in zip(g.params, ptypes)]
+            cargs = [SV(pt, c) for pt, c in zip(ptypes, consts)]
+            rty = T.parse_type(g.ret)
+            if n not in ctx.ghost_funcs:
+                ctx.ghost_funcs[n] = z3.Function('g!' + n, *([p.sort() for p in ptypes] + [rty.sort()]))
+            app = ctx.ghost_funcs[n](*consts)
+            body = ghost_instance(ctx, resolver, g, cargs, app)
+            ax = z3.ForAll(consts, body, patterns=[app])
+            new.append(ax)
+        if not new:
+            break
+        out.extend(new)
+        work = new
+    return out
+
+
 def unfold(ctx, resolver, formulas, fuel):
     """Add definition instances for the ghost applications in formulas (to depth `fuel`)."""
     done = {}
-    extra = []
-    frontier = list(formulas)
+    extra = quantified_definitions(ctx, resolver, formulas)
+    frontier = list(formulas) + list(extra)
     for _ in range(fuel):
         apps = find_ghost_apps(ctx, frontier)
         new = []
@@ -226,7 +270,7 @@ def unfold(ctx, resolver, formulas, fuel):
             g = S.GHOSTS[gname]
             ptypes = [T.parse_type(g.types[p]) for p in g.params]
             cargs = [SV(pt, app.arg(i)) for i, pt in enumerate(ptypes)]
-            if g.opaque:
+            if g.opaque or g.quantified:
                 done[sx] = None
                 continue
             inst = ghost_instance(ctx, resolver, g, cargs, app)
@@ -237,6 +281,46 @@ def unfold(ctx, resolver, formulas, fuel):
         extra.extend(new)
         frontier = new
     return extra
+
+
+def fork_map(fn, n, jobs):
+    """Evaluate fn(0..n-1) in `jobs` forked children (z3 terms are not picklable, so the obligations are
+    inherited through fork and only plain results travel back through pipes)."""
+    import pickle
+    jobs = max(1, min(jobs, n))
+    kids = []
+    for j in range(jobs):
+        r, w = os.pipe()
+        pid = os.fork()
+        if pid == 0:
+            os.close(r)
+            out = []
+            try:
+                for i in range(j, n, jobs):
+                    try:
+                        out.append((i, fn(i)))
+                    except Exception as e:     # noqa
+                        out.append((i, {'name': 'obligation#%d' % i, 'kind': '?', 'line': 0, 'verdict': 'unknown',
+                                        'time_s': 0, 'text': '', 'backend': 'z3', 'reason': 'worker error: %s' % e}))
+                with os.fdopen(w, 'wb') as f:
+                    pickle.dump(out, f)
+            finally:
+                os._exit(0)
+        os.close(w)
+        kids.append((pid, r))
+    results = {}
+    for pid, r in kids:
+        with os.fdopen(r, 'rb') as f:
+            data = f.read()
+        os.waitpid(pid, 0)
+        if data:
+            for i, rec in pickle.loads(data):
+                results[i] = rec
+    out = []
+    for i in range(n):
+        out.append(results.get(i, {'name': 'obligation#%d' % i, 'kind': '?', 'line': 0, 'verdict': 'unknown',
+                                   'time_s': 0, 'text': '', 'backend': 'z3', 'reason': 'worker died'}))
+    return out
 
 
 def _verdict(r):
@@ -306,6 +390,7 @@ def verify_contract(con, instance=None, timeout_ms=30000, resolver=None, want_sm
         ex = Exec(ctx, con, types, resolver, self_class=self_class)
         body = strip_docstring(node.body)
         ex.mutated_names = mutated_names(body)
+        ex.function_body = body
         st = State()
         params = [a.arg for a in node.args.args]
         if node.args.vararg or node.args.kwarg or node.args.kwonlyargs:
@@ -328,7 +413,7 @@ def verify_contract(con, instance=None, timeout_ms=30000, resolver=None, want_sm
             st.env[p] = v
         for p in con.types:
             if p not in params and p != 'ret' and p not in assigned_names(body) and not p.startswith('_') \
-                    and p not in _bound_names(con):
+                    and not p.startswith('g_') and p not in _bound_names(con):
                 raise ContractDrift('contract of %s types unknown name %s' % (con.key, p))
         # allocation counter
         st.heap[('$alloc', 'next')] = z3.Int('alloc!entry')
@@ -360,6 +445,15 @@ def verify_contract(con, instance=None, timeout_ms=30000, resolver=None, want_sm
         runner = Runner(ex)
         outs = runner.run_block(body, st)
         ctx.paths = len(outs)
+        # contract drift guards: every ghost anchor and every loop contract must have matched real code
+        for anchor in (con.ghost or {}):
+            if 'ghost:' + anchor not in ctx.reached:
+                raise ContractDrift('ghost anchor %r matches no reachable statement of %s' % (anchor, con.qual))
+        n_loops = len({(n.lineno, n.col_offset) for st_ in body for n in ast.walk(st_) if isinstance(n, (ast.For, ast.While))})
+        for k in (con.loops or {}):
+            idx = k[0] if isinstance(k, tuple) else k
+            if idx >= n_loops:
+                raise ContractDrift('loop contract %r but %s has only %d loops' % (k, con.qual, n_loops))
         ens = parse_exprs(con.ensures + (instance.get('ensures', []) if instance else []))
         rty = T.parse_type(types['ret']) if 'ret' in types else None
         normal = 0
@@ -391,6 +485,29 @@ def verify_contract(con, instance=None, timeout_ms=30000, resolver=None, want_sm
                 for i, e in enumerate(ens):
                     g = truthy(ex.ev(e, ost))
                     ex.oblige(ost, g, 'post', str(i), text=ast.unparse(e))
+                # frame: every heap field the body changed must be covered by `modifies`
+                allowed_all, allowed_self = set(), set()
+                for m in con.modifies:
+                    if m.startswith('self.'):
+                        allowed_self.add((ex.field_decl_class(self_class, m[5:]), m[5:]))
+                    else:
+                        c_, f_ = m.split('.', 1)
+                        allowed_all.add((ex.field_decl_class(c_, f_), f_))
+                for key, now in ost.heap.items():
+                    if key[0] == '$alloc':
+                        if not con.alloc and key in old.heap and not now.eq(old.heap[key]):
+                            ex.oblige(ost, now == old.heap[key], 'frame', 'no-allocation',
+                                      text='function allocates but its contract has no alloc=True')
+                        continue
+                    was = old.heap.get(key)
+                    if was is None or now.eq(was) or key in allowed_all:
+                        continue
+                    r = z3.Int('r!frame')
+                    if key in allowed_self:
+                        g = z3.ForAll([r], z3.Implies(r != ost.env['self'].t, now[r] == was[r]))
+                    else:
+                        g = z3.ForAll([r], now[r] == was[r])
+                    ex.oblige(ost, g, 'frame', '%s.%s' % key, text='field %s.%s not in modifies' % key)
                 ctx.mode = 'code'
                 canary_states.append(ost)
             elif o.kind == 'raise':
@@ -416,7 +533,12 @@ def verify_contract(con, instance=None, timeout_ms=30000, resolver=None, want_sm
             res.reason = 'no obligations generated'
             return res
         worst = 'ok'
-        for ob in ctx.obligations:
+        debug = os.environ.get('PYVC_DEBUG')
+        if debug:
+            print('[pyvc] %s: %d paths, %d obligations, %d infeasible pruned, symex %.1fs'
+                  % (fname, len(outs), len(ctx.obligations), ctx.infeasible, time.time() - t0), file=sys.stderr, flush=True)
+        def one(i):
+            ob = ctx.obligations[i]
             verdict, dt, model, solver = discharge(ctx, resolver, ob, timeout_ms)
             rec = {'name': ob.name, 'kind': ob.kind, 'line': ob.lineno, 'verdict': verdict,
                    'time_s': round(dt, 4), 'text': ob.text, 'backend': 'z3-' + z3.get_version_string()}
@@ -424,12 +546,24 @@ def verify_contract(con, instance=None, timeout_ms=30000, resolver=None, want_sm
                 from .decode import decode_inputs
                 rec['counterexample'] = decode_inputs(model, old, params)
                 rec['solver_output'] = str(model)[:4000] if model is not None else ''
-                worst = 'violated'
-            elif verdict == 'unknown' and worst != 'violated':
-                worst = 'undecided'
+            elif verdict == 'unknown':
                 rec['reason'] = solver.reason_unknown()
             if want_smt:
                 rec['smt2'] = solver.to_smt2()
+            if debug:
+                print('[pyvc]   %s %s %.2fs L%s' % (verdict, ob.name, dt, ob.lineno), file=sys.stderr, flush=True)
+            return rec
+        jobs = int(os.environ.get('PYVC_JOBS', '1'))
+        n_ob = len(ctx.obligations)
+        if jobs > 1 and n_ob > 24:
+            recs = fork_map(one, n_ob, jobs)
+        else:
+            recs = [one(i) for i in range(n_ob)]
+        for rec in recs:
+            if rec['verdict'] == 'failed':
+                worst = 'violated'
+            elif rec['verdict'] == 'unknown' and worst != 'violated':
+                worst = 'undecided'
             res.obligations.append(rec)
         # canary: a false postcondition must NOT be provable
         if canary_states:
